@@ -36,6 +36,7 @@ var verifParsedOff int
 
 func verifStubDate(year int, month time.Month, day, hour, min, sec, nsec int, loc *time.Location) time.Time {
 	verifDate.calls++
+	sym.Assert(loc != nil, "time.Date is never called with a nil location (it panics)")
 	verifDate.y, verifDate.mon, verifDate.d, verifDate.h, verifDate.mi, verifDate.s, verifDate.ns = year, int(month), day, hour, min, sec, nsec
 	off, ok := verifZoneOff[loc]
 	verifDate.off, verifDate.local = off, !ok
@@ -77,12 +78,23 @@ func verifStubParse(layout, v string) (time.Time, error) {
 		verifParsedOff = off
 		return time.Time{}, nil
 	}
-	if sym.Bool("tzParseFails") {
+	// time.Parse is a function of its arguments: one arbitrary answer per harness run (every harness uses one zone string)
+	if !verifTzDecided {
+		verifTzDecided = true
+		verifTzFails = sym.Bool("tzParseFails")
+		if !verifTzFails {
+			verifTzOff = sym.IntRange("tzOffset", -90000, 90000)
+		}
+	}
+	if verifTzFails {
 		return time.Time{}, errors.New("bad zone")
 	}
-	verifParsedOff = sym.IntRange("tzOffset", -90000, 90000)
+	verifParsedOff = verifTzOff
 	return time.Time{}, nil
 }
+
+var verifTzDecided, verifTzFails bool
+var verifTzOff int
 
 // verifStubParseFloat models strconv.ParseFloat for ".d…d" (1..15 digits) as
 // the correctly rounded quotient digits/10^k (IEEE-754 division is correctly
@@ -104,6 +116,7 @@ func verifStubParseFloat(s string, bits int) (float64, error) {
 }
 
 func verifNewTransform(cnt *verifCounter) (*parseTimeTransform, base.LogSchema) {
+	verifTzDecided = false
 	schema := base.MustNewLogSchema([]string{"time", "msg"})
 	cfg := &Config{Key: "time", ErrorLabel: "timeError"}
 	return cfg.NewTransform(schema, logger.Root(), cnt).(*parseTimeTransform), schema
@@ -349,5 +362,41 @@ func VerifC13_EveryErrorCounted() {
 		sym.Reach("same")
 	} else {
 		sym.Reach("different")
+	}
+}
+
+// VerifC13_RepeatedZone: the zone cache: the same timestamp (well-formed
+// date-time, zone suffix of 1..6 arbitrary bytes) through one transform twice:
+// the second record gets exactly the result of the first - same error
+// accounting, same time.Date arguments and offset - and nothing panics.
+//
+//verif:stub time.Date verifStubDate
+//verif:stub time.Parse verifStubParse
+//verif:stub time.FixedZone verifStubFixedZone
+//verif:stub (time.Time).Zone verifStubZone
+//verif:stub strconv.ParseFloat verifStubParseFloat
+//verif:reach both-errors both-parsed
+func VerifC13_RepeatedZone() {
+	verifDate = verifDateRec{}
+	n := 1 + sym.Choice("zoneLen", 6)
+	v := "2020-03-04T05:06:07" + sym.String("zone", n, n)
+	cnt := &verifCounter{}
+	tf, schema := verifNewTransform(cnt)
+	fallback := time.Unix(1600000000, 0)
+	r1 := schema.NewTestRecord2(fallback, base.LogFields{v, ""})
+	r2 := schema.NewTestRecord2(fallback, base.LogFields{v, ""})
+	r1.RawLength, r2.RawLength = 10, 10
+	tf.Transform(r1)
+	first, firstErrs := verifDate, cnt.n
+	verifDate = verifDateRec{}
+	tf.Transform(r2) // obligation: no panic on the cached zone
+	sym.Assert(cnt.n-firstErrs == firstErrs, "the second occurrence of a timestamp is accounted like the first")
+	if firstErrs == 0 {
+		sym.Assert(verifDate.calls == first.calls && verifDate.off == first.off && verifDate.local == first.local && verifDate.s == first.s,
+			"the cached zone gives the same instant as the first parse")
+		sym.Reach("both-parsed")
+	} else {
+		sym.Assert(r2.Timestamp == fallback, "fallback time left in place on the repeated error")
+		sym.Reach("both-errors")
 	}
 }
